@@ -31,8 +31,55 @@ def run(cfg, timeout):
     return r
 
 
+RULES = {
+    "c07": "stateless exploration with loom of the real compression.rs (create_sync_vec, decode_to_end, SyncVecRd, impl Source for SeekableDecoder) and FileSource::read: one decoder thread fed by a scripted Read (chunks of 2 bytes, short-read scripts {2},{1},{1,2}) and R readers each doing one operation from {get_slice(o,n) for every sub-range incl. one past the end, read(o, long/1), read_exact, stream to the end}; every operation tuple is a configuration; all interleavings at loom's scheduling points (mutex, condvar, thread) with preemption bound 0,1,2 (3 and unbounded where listed); one loom cell per buffer byte makes the unsynchronised buffer accesses visible to the race detector; evaluations = executions (complete schedules), distinct_nontrivial = configurations (operation tuple x short-read script)",
+    "c08": "stateless exploration with loom of the real clusterwriter.rs (ClusterWriterProxy, W ClusterCompressor threads, the ClusterWriter thread, dispatch/fusion channels, back-pressure condvar) driven through ContentPackCreator with an in-memory recipient, 1 blob per cluster (override), every insertion program over {c: hint Yes, r: hint No} of length 1..4 (W=1) / 1..3 (W=2) plus 5 and 6 compressed clusters beyond the back-pressure limit, preemption bound 0,1,2 (3 on the short programs); per execution: creation terminates (no deadlock), addresses as inserted, the produced pack is decoded by the independent decoder and every content resolves to its bytes; evaluations = executions, distinct_nontrivial = (program, W, bound) configurations",
+}
+
+
+def c07_jobs(add, ncpu, thorough):
+    # the length-publication protocol: C chunks of 2 bytes x R readers, every operation tuple
+    add(["decoder", "--chunks", "1", "--readers", "1"], [0, 1, 2, "none"])
+    add(["decoder", "--chunks", "1", "--readers", "2"], [0, 1, 2])
+    add(["decoder", "--chunks", "2", "--readers", "1"], [0, 1, 2, "none"])
+    add(["decoder", "--chunks", "2", "--readers", "2"], [0, 1], 4)
+    add(["decoder", "--chunks", "2", "--readers", "2"], [2], ncpu)
+    add(["decoder", "--chunks", "2", "--readers", "3"], [0, 1, 2], 4)
+    add(["decoder", "--chunks", "3", "--readers", "2", "--ops", "ends"], [0, 1, 2], ncpu)
+    add(["decoder-eof"], [0, 1, 2, 3])
+    add(["file", "--file", "/dev/shm/x"], [0, 1, 2, 3])
+    if thorough:
+        add(["decoder", "--chunks", "2", "--readers", "2"], [3], ncpu)
+        add(["decoder", "--chunks", "3", "--readers", "2"], [2], ncpu)
+        add(["decoder", "--chunks", "3", "--readers", "3"], [2], ncpu)
+        add(["decoder", "--chunks", "2", "--readers", "3"], [3], ncpu)
+        add(["decoder", "--chunks", "2", "--readers", "2", "--ops", "ends"], ["none"], ncpu)
+
+
+def c08_jobs(add, ncpu, thorough):
+    def progs(n):
+        return ["".join("c" if m >> i & 1 else "r" for i in range(n)) for m in range(1 << n)]
+    for n in (1, 2, 3):
+        for pr in progs(n):
+            add(["pipeline", "--workers", "1", "--program", pr], [0, 1, 2] + ([3] if n <= 2 else []))
+    for pr in progs(4):
+        add(["pipeline", "--workers", "1", "--program", pr], [0, 1, 2])
+    add(["pipeline", "--workers", "1", "--program", "ccccc"], [0, 1, 2])
+    add(["pipeline", "--workers", "1", "--program", "cccccc"], [0, 1])
+    for n in (1, 2):
+        for pr in progs(n):
+            add(["pipeline", "--workers", "2", "--program", pr], [0, 1, 2])
+    for pr in progs(3):
+        add(["pipeline", "--workers", "2", "--program", pr], [0, 1] + ([2] if thorough else []))
+    if thorough:
+        add(["pipeline", "--workers", "2", "--program", "ccccc"], [0, 1])
+        add(["pipeline", "--workers", "1", "--program", "crcrc", "--max-blobs", "2"], [0, 1, 2])
+
+
 def main():
     args = sys.argv[1:]
+    sub = args[0] if args else "c07"
+    prop = "C07" if sub == "c07" else "C08"
     tier = os.environ.get("VERIF_TIER", "quick")
     out = None
     i = 1
@@ -54,22 +101,7 @@ def main():
             for s in range(shards):
                 jobs.append(base + ["--bound", str(b)] + (["--shard", str(s), "--shards", str(shards)] if shards > 1 else []))
 
-    # the length-publication protocol: C chunks of 2 bytes x R readers, every operation tuple
-    add(["decoder", "--chunks", "1", "--readers", "1"], [0, 1, 2, "none"])
-    add(["decoder", "--chunks", "1", "--readers", "2"], [0, 1, 2])
-    add(["decoder", "--chunks", "2", "--readers", "1"], [0, 1, 2, "none"])
-    add(["decoder", "--chunks", "2", "--readers", "2"], [0, 1], 4)
-    add(["decoder", "--chunks", "2", "--readers", "2"], [2], ncpu)
-    add(["decoder", "--chunks", "2", "--readers", "3"], [0, 1, 2], 4)
-    add(["decoder", "--chunks", "3", "--readers", "2", "--ops", "ends"], [0, 1, 2], ncpu)
-    add(["decoder-eof"], [0, 1, 2, 3])
-    add(["file", "--file", f"/dev/shm/jbkmc-loomfile-{os.getpid()}.bin"], [0, 1, 2, 3])
-    if thorough:
-        add(["decoder", "--chunks", "2", "--readers", "2"], [3], ncpu)
-        add(["decoder", "--chunks", "3", "--readers", "2"], [2], ncpu)
-        add(["decoder", "--chunks", "3", "--readers", "3"], [2], ncpu)
-        add(["decoder", "--chunks", "2", "--readers", "3"], [3], ncpu)
-        add(["decoder", "--chunks", "2", "--readers", "2", "--ops", "ends"], ["none"], ncpu)
+    (c07_jobs if sub == "c07" else c08_jobs)(add, ncpu, thorough)
     # distinct file names for concurrent `file` runs
     for k, j in enumerate(jobs):
         if j[0] == "file":
@@ -89,11 +121,11 @@ def main():
             caps.append(f"{name}: not finished within {cap_s}s")
             continue
         if "crash" in r:
-            # loom aborts the process on some failures (double panic): that is a detection, not machinery,
-            # when the output names a loom verdict
+            # loom aborts the process on some failures (double panic): a detection when the output
+            # names a loom verdict, machinery otherwise
             txt = r["crash"]
             if "deadlock" in txt.lower() or "Causality" in txt or "assert" in txt.lower():
-                k = "C07 loom verdict (process aborted): " + ("deadlock" if "deadlock" in txt.lower() else "race/assertion")
+                k = f"{prop} loom verdict (process aborted): " + ("deadlock" if "deadlock" in txt.lower() else "race/assertion")
                 violations.setdefault(k, {"key": k, "what": f"{name}: {txt[-300:]}", "case": {"engine": "loomdrv.py", "cfg": r["cfg"]}, "count": 0})["count"] += 1
             else:
                 machinery.append(f"{name}: loommc exited {r.get('rc')} without a result: {txt[-200:]}")
@@ -101,7 +133,7 @@ def main():
         executions += r["executions"]
         configs += r["configs"]
         interior += r.get("interior_boundary_waits", 0)
-        key = " ".join(r["cfg"][:5])
+        key = " ".join(x for x in r["cfg"][: r["cfg"].index("--bound")] if not x.startswith("/dev/shm"))
         b = by_cfg.setdefault(key, {"executions": 0, "bounds": set()})
         b["executions"] += r["executions"]
         b["bounds"].add(r["cfg"][r["cfg"].index("--bound") + 1])
@@ -111,24 +143,28 @@ def main():
                 cls = "deadlock (a thread waits forever)"
             elif "Causality violation" in e or "concurrent" in e.lower():
                 cls = "data race on the shared decode buffer"
+            elif "resolves to other bytes" in e or "does not decode" in e or "decoder rejects" in e:
+                cls = "the created pack does not hold what was inserted"
             elif "assertion" in e or "left" in e:
-                cls = "a reader got wrong bytes / wrong length"
+                cls = "a reader got wrong bytes / wrong length" if sub == "c07" else "assertion on the created pack failed"
             else:
                 cls = "failure: " + e.split(":")[-1][:60]
-            what = f"{name}: {e[:500]}"
-            k = f"C07 {cls} [{r['cfg'][0]}]"
-            violations.setdefault(k, {"key": k, "what": what, "case": {"engine": "loomdrv.py", "cfg": r["cfg"], "error": e[:800]}, "count": 0})["count"] += 1
+            k = f"{prop} {cls} [{r['cfg'][0]}]"
+            violations.setdefault(k, {"key": k, "what": f"{name}: {e[:500]}", "case": {"engine": "loomdrv.py", "sub": sub, "cfg": r["cfg"], "error": e[:800]}, "count": 0})["count"] += 1
+    extra = {"schedules_explored": executions, "configurations": configs,
+             "per_configuration": {k: {"executions": v["executions"], "bounds_completed": sorted(v["bounds"])} for k, v in by_cfg.items()}}
+    if sub == "c07":
+        extra["executions_with_a_reader_waiting_for_an_interior_chunk_boundary"] = interior
     rep = {
-        "engine": "loomdrv.py", "property": "C07",
-        "evaluations": executions, "distinct_nontrivial": configs,
-        "rule": "stateless exploration with loom of the real compression.rs (create_sync_vec, decode_to_end, SyncVecRd, impl Source for SeekableDecoder) and FileSource::read: one decoder thread fed by a scripted Read (chunks of 2 bytes, short-read scripts {2},{1},{1,2}) and R readers each doing one operation from {get_slice(o,n) for every sub-range incl. one past the end, read(o, long/1), read_exact, stream to the end}; every operation tuple is a configuration; all interleavings at loom's scheduling points (mutex, condvar, thread) with preemption bound 0,1,2 (3 and unbounded where listed); one loom cell per buffer byte makes the unsynchronised buffer accesses visible to the race detector; evaluations = executions (complete schedules), distinct_nontrivial = configurations (operation tuple x short-read script)",
-        "outcomes": {"configuration explored without failure": configs - sum(v["count"] for v in violations.values())} if configs else {},
+        "engine": "loomdrv.py " + sub, "property": prop,
+        "evaluations": executions, "distinct_nontrivial": configs if sub == "c07" else len(by_cfg),
+        "rule": RULES[sub],
+        "outcomes": {"configuration explored without failure": max(configs - sum(v["count"] for v in violations.values()), 0)} if configs else {},
         "distinct_outcomes": 1,
         "samples": [r["cfg"] for r in results[:2]] + [r["cfg"] for r in results[-2:]],
         "violations": list(violations.values()),
         "info": {},
-        "extra": {"schedules_explored": executions, "configurations": configs, "executions_with_a_reader_waiting_for_an_interior_chunk_boundary": interior,
-                  "per_configuration": {k: {"executions": v["executions"], "bounds_completed": sorted(v["bounds"])} for k, v in by_cfg.items()}},
+        "extra": extra,
         "exhaustive": not caps, "caps": caps, "states": 0, "transitions": 0, "traces_validated_against_impl": executions,
         "machinery_errors": machinery, "wall_s": time.time() - t0,
     }
@@ -137,7 +173,7 @@ def main():
         open(out, "w").write(text)
     else:
         print(text)
-    sys.stderr.write(f"[loomdrv.py] C07 configs={configs} executions={executions} violations(keys)={len(violations)} caps={len(caps)} wall={time.time()-t0:.1f}s\n")
+    sys.stderr.write(f"[loomdrv.py] {prop} configs={configs} executions={executions} violations(keys)={len(violations)} caps={len(caps)} wall={time.time()-t0:.1f}s\n")
     if machinery:
         for m in machinery[:5]:
             sys.stderr.write(f"MACHINERY-ERROR {m}\n")
